@@ -9,6 +9,48 @@ ALL = [f"C{i:02d}" for i in range(1, 21)]
 
 # id -> (level category, technique, level text, level note, design section)
 CHECKS = {
+    "C01": (
+        "exploration",
+        "runtime oracle on the real throw/mcintegral: finite-difference 4x4 Jacobian of explicit 3-D vectors (importance identity), one-hot observation of the weight mcintegral applies, scrambled-Sobol quadrature (truncated and full) against an independently integrated aperture",
+        "Observed executions over 12 (quick) / 64 (thorough) configurations spanning altitude 1..40000 km, limb angle 1e-3..0.999 of the horizon angle, cone 0.1..89 deg, azimuth 1..360 deg: 4096..20000 interior points each judged pointwise (2e-5), weights observed through the real mcintegral, region edges, and quadrature convergence. Unbiasedness is a statement about a whole measure; what is observed is the integrand identity and region at sampled points plus convergence of one quadrature family.",
+        "Trusted: numpy, scipy.integrate.quad, scipy.stats.qmc. Earth radius = astropy R_earth. A defect confined to a set the workload never samples is invisible.",
+        "5 (C01)",
+    ),
+    "C02": (
+        "exploration",
+        "reference-model monitor with explicit 3-D vectors on every thrown event of the closed unit cube; closed-form inverse-CDF residual in 50-digit decimal; position oracle along kept trajectories incl. after a second throw on the same object",
+        "Observed executions of RegionGeom.throw on a closed-cube boundary catalogue (all face/edge/vertex combinations, denormals, 1-2^-53, u4 ladders) plus 4e4..1.5e5 interior points for 12..160 detector positions incl. poles and the date line; every event judged for range, inverse-CDF image, ground spot, emergence angle and keep mask; positions along trajectories at 5 distances.",
+        "Trusted: numpy, python decimal. Inverse-CDF tolerance 1e-10 of the CDF range plus 32 ulps of l (the property gives no figure; the trigonometric solver carries tens of ulps). Altitude along a trajectory is observable only through the ground offset.",
+        "5 (C02)",
+    ),
+    "C03": (
+        "exploration",
+        "independent re-evaluation of the documented estimator (math.fsum loops, own derivation of the sampling normalisation) from the event columns; metamorphic monitors (permutation, threshold ladder, bound, call history); monitored full compute() runs recomputing header keywords and per-event columns from the final table",
+        "Direct: the real mcintegral of both geometry classes on generated arrays incl. trigger == threshold, cosines on the cone edge, decay exactly at / beyond the path length, both methods, dark-sky cut on/off (1e5 events per run). Full runs: 4 (quick) / 12 (thorough) monitored simulations in both modes and channels.",
+        "Trusted: numpy; the dark-sky mask itself is taken from the real sun_moon_cut (C13 decides its correctness). Sums compared at 1e-9 relative plus a stated conditioning allowance; counts exactly.",
+        "5 (C03)",
+    ),
+    "C06": (
+        "exploration",
+        "reference-model monitor (scalar double-precision model, math module only) against the production float32 kernel and the same kernel in double via the guarded hook; stepping probe with invariants; clang ASan+UBSan on the working tree's zsteps.cpp (pre-flight and on every tuple the workload passed)",
+        "Observed executions on a stratified grid incl. all faces of [0,42 deg]x[0,20 km]x[1e-5,1e4] plus hostile extras and random points (1.1e3 quick / 1.3e4 thorough events, three detector altitudes): float32 within the property's band, median deviation, double-precision agreement at 1e-9 (separates logic from rounding), sub-degree clamp bit-identity, stepping invariants, sanitizer clean with identical output hash.",
+        "Trusted: the reference transcription of the model (DESIGN Appendix A), libm, clang sanitizers. The prebuilt extension cannot be rebuilt (no pybind11): every kernel run uses the function compiled from the current zsteps.cpp through a shim. A clean sanitizer run is not memory safety.",
+        "5 (C06)",
+    ),
+    "C08": (
+        "exploration",
+        "probes on CphotAng.__call__/run recording what EAS.__call__ hands to the kernel and gets back; recomputation of PEs and the effective angle; two-run inverse-square relation with independent straight-line distances",
+        "Observed executions of the real EAS.__call__ for 3..5 detector altitudes x 3 optical settings with hostile decay altitudes (-inf, -5e-324, 0, 20, 20+ulp, +inf ...), thresholds giving PE/threshold exactly 2 and one ulp either side, and 150..1500 two-detector kernel runs.",
+        "Trusted: numpy. Squared-ratio tolerance 1e-3 (float32 viewing angle). Synchronous scheduler (schedules are C10's subject).",
+        "5 (C08)",
+    ),
+    "C09": (
+        "exploration",
+        "kernel run under harness cloud functions placed relative to the segment altitudes the kernel itself reports (valid_arrays probe): bit-identity / exact zero / reference-with-cloud / piecewise constancy; cloud-model monitors with a neighbour-node oracle over all 12 maps and an independent atmosphere",
+        "Observed executions: 60..480 events x ~27 cloud tops x two precisions; 12 monthly maps x 3400..40000 locations (radians) incl. poles, the +-180 deg seam and locations produced by the real geometry stage.",
+        "Trusted: astropy.io.fits for the maps, atm_ref. A tie (cloud top exactly on a segment altitude) is accepted either way. float32 absolute accuracy for cloud tops above 25 km is observed only.",
+        "5 (C09)",
+    ),
     "C04": (
         "exploration",
         "reference-model monitor on the real sampler: forward CDF residual and own inversion from an independent explicit-neighbour table model, RNG spy/stub for explicit-vs-internal equivalence, rejection and monotonicity monitors",
